@@ -60,10 +60,13 @@ def _run(ctx, pid, thorough, rng, exe, tmp):
     track_mc.model_check(ctx, pid, thorough)
     sessions = []
     # the model configuration with its tree, then generated configurations x trees
-    sessions.append(g.Session("bootmc", track_mc.MC_CFG, os.path.join(tmp, "bootmc"), paths=dict(track_mc.MC_PATHS), boot=True).end())
+    sessions.append(g.Session("bootmc", track_mc.MC_CFG, os.path.join(tmp, "bootmc"), paths=dict(track_mc.MC_PATHS), boot=True, reboot=True).end())
     for i in range(120 if thorough else 24):
         c = gen_cfg(rng); tree, opts = gen_tree(rng, c, deep=(i % 3 == 0))
-        sessions.append(g.Session("boot%d" % i, c, os.path.join(tmp, "boot%d" % i), tree=tree, boot=True, bus_opts=opts).end())
+        # sessions with a second reset: mostly with nodes that answer a feature setting with another value (what the
+        # nodes answered must not change what is sent the second time)
+        if i % 2 == 1 and not any(o.startswith("featother") for o in opts) and rng.random() < 0.7: opts.append("featother %d" % rng.randrange(256))
+        sessions.append(g.Session("boot%d" % i, c, os.path.join(tmp, "boot%d" % i), tree=tree, boot=True, bus_opts=opts, reboot=(i % 2 == 1)).end())
     if pid == "C15":
         # dynamic part: notices + commands in drained sessions (state compared after every event)
         for i in range(40 if thorough else 8):
